@@ -661,9 +661,17 @@ class Conformance:
         # rejections are not re-run - at least the confirmed ones are reported)
         from concurrent.futures import ThreadPoolExecutor
         CAP = 48
-        todo = v.rejected[:CAP]
-        if len(v.rejected) > CAP:
-            log("%s/%s: %d rejections, confirming the first %d" % (self.prop, label, len(v.rejected), CAP))
+        # one confirmation per CASE (a case may yield several events; the re-run judges all of them again)
+        seen_ci, distinct = set(), []
+        for item in v.rejected:
+            ci = item[0].get("i", -1)
+            key = ci if (0 <= ci < len(cases) and item[0].get("op") not in ("CRASH", "TIMEOUT")) else ("x", len(distinct))
+            if key not in seen_ci:
+                seen_ci.add(key)
+                distinct.append(item)
+        todo = distinct[:CAP]
+        if len(distinct) > CAP:
+            log("%s/%s: %d rejected cases, confirming the first %d" % (self.prop, label, len(distinct), CAP))
 
         def confirm(item):
             (e, shard, idx) = item
